@@ -167,7 +167,7 @@ def main(tier, seed):
     t0 = time.time()
     rep = C.Reporter(PID, tier, seed)
     C.build(['repo', 'core'])
-    shards, per = (32, 800) if tier == 'quick' else (160, 1250)
+    shards, per = (32, 800) if tier == 'quick' else (160, 6250)
     _RUN.update(tier=tier, seed=seed, per=per, dir=C.mktmp(PID))
     res = C.pmap(_shard, list(range(shards)))
     hist = {}
@@ -182,7 +182,7 @@ def main(tier, seed):
         maxh, maxd, maxops = max(maxh, r['maxh']), max(maxd, r['maxd']), max(maxops, r['maxops'])
         if len(samples) < 4:
             samples.extend(r['samples'][:1])
-    nchk = 800 if tier == 'quick' else 5000
+    nchk = 800 if tier == 'quick' else 20000
     rows = 0
     for r in C.pmap(_check_case, list(range(nchk)), chunksize=8):
         rep.merge(r['items'])
